@@ -17,7 +17,9 @@ RULE = ("configurations = template tables from a grammar: basetypes from {shot, 
         "explicit types at every subset of levels (plus optional leaf variants sharing all but the last pattern), listed in "
         "descending / ascending / every permutation (<=3 entries) order, to_extrapolate = every subset of the explicit "
         "base__key types; 2 basetypes: all pairs of single-basetype tables with chains <=4 in 3 interleavings; 3-4 "
-        "basetypes: chains <=3. pattern_replacing: 7 selector classes x occurring / non-occurring find strings. "
+        "basetypes: chains <=3. pattern_replacing: 7 selector classes x occurring / non-occurring find strings. Loader: "
+        "configurations loaded by spil.conf in fresh interpreters (extrapolate, then inject), each also as a path configuration "
+        "with no selectors / a selector matching no type / its own selectors. "
         "distinct = distinct (table, to_extrapolate) ; non-trivial = at least one type is extrapolated.")
 ASSUMPTIONS = ["to_extrapolate only lists types named basetype__key (as the grammar of the property says)"]
 SEP = "__"
@@ -269,6 +271,21 @@ def check_loader(case, workdir):
         extra = [g[0] for g in got if g[0] not in want]
         sig = "loader/loaded-templates-differ-from-extrapolate-then-inject"
         return [dict(signature=sig, observed=got, expected=[list(x) for x in want.items()], note="extra types: %s" % extra)]
+    # the second place patterns are injected: a path configuration, with its own selectors (none at all, one that matches no
+    # type, the same ones as the Sid configuration) - its templates are rewritten by *its* selectors only
+    raw = {t: "/r/" + v for t, v in dict(entries).items()}
+    for label, kpp in (("no-selectors", {}), ("selector-matching-no-type", {"zz-no-such-type": {"{x}": "{x:(q)}"}}), ("own-selectors", kp)):
+        with open(os.path.join(d, "spil_fs_conf.py"), "w") as f:
+            f.write("path_templates = %r\nkey_patterns = %r\npath_mapping = {}\npath_defaults = {}\n" % (raw, kpp))
+        p = subprocess.run([sys.executable, "-c", "import json\nfrom spil.sid.pathops.pathconfig import PathConfig\npc = PathConfig('local', 'spil_fs_conf')\n"
+                            "print('TPL ' + json.dumps(list(pc.path_templates.items())))"], capture_output=True, text=True, env=e)
+        line = [l for l in p.stdout.splitlines() if l.startswith("TPL ")]
+        wantp = ref_inject(dict(raw), kpp)
+        if p.returncode != 0 or not line:
+            return [dict(signature="loader/path-configuration-does-not-load/" + label, observed=(p.stderr or p.stdout)[-300:], expected=list(wantp.items()))]
+        gotp = json.loads(line[-1][4:])
+        if [list(x) for x in wantp.items()] != gotp:
+            return [dict(signature="loader/path-templates-rewritten-by-other-selectors/" + label, observed=gotp[:6], expected=[list(x) for x in wantp.items()][:6])]
     return []
 
 
